@@ -94,6 +94,12 @@ impl InodeStore {
     pub fn inode_by_handle(&self, handle: &FileHandle) -> Option<&Inode> {
         self.by_handle.get(handle)
     }
+
+    /// Verification hook (read-only): sizes of `data`, `by_id`, `by_handle`.
+    #[cfg(fuse_backend_rs_verif)]
+    pub fn verif_sizes(&self) -> (usize, usize, usize) {
+        (self.data.len(), self.by_id.len(), self.by_handle.len())
+    }
 }
 
 #[cfg(test)]
